@@ -45,6 +45,9 @@ static void lifecycle(int n, int k, int l, int Bgbit, int t, int bb, int order, 
         std::string gk = to_stream_bytes([&](std::ostream &o) { export_tgswKey_toStream(o, sk->tgsw_key); });
         std::string kk = to_stream_bytes([&](std::ostream &o) { export_lweKeySwitchKey_toStream(o, sk->cloud.bk->ks); });
         std::string bb2 = to_stream_bytes([&](std::ostream &o) { export_lweBootstrappingKey_toStream(o, sk->cloud.bk); });
+        // the exported bytes are a result: make every byte of them influence control flow, so that memcheck reports
+        // uninitialised memory that was merely copied into an export (a definedness check no red-zone tool can do)
+        for (const std::string *e: {&cb, &sb, &pb, &ctb, &lk, &gk, &kk, &bb2}) { uint64_t h = fnv1a(e->data(), e->size()); if (h & 1) sink += 1; else sink += 2; }
         TFheGateBootstrappingCloudKeySet *ck2; TFheGateBootstrappingSecretKeySet *sk2;
         if (tr == 0) { std::istringstream i1(cb, std::ios::binary), i2(sb, std::ios::binary); ck2 = new_tfheGateBootstrappingCloudKeySet_fromStream(i1); sk2 = new_tfheGateBootstrappingSecretKeySet_fromStream(i2); }
         else { FILE *f1 = fmemopen((void *) cb.data(), cb.size(), "rb"), *f2 = fmemopen((void *) sb.data(), sb.size(), "rb"); ck2 = new_tfheGateBootstrappingCloudKeySet_fromFile(f1); sk2 = new_tfheGateBootstrappingSecretKeySet_fromFile(f2); fclose(f1); fclose(f2); }
@@ -88,6 +91,7 @@ static void iokinds_pass(int reps) {
         HP o = k.make(g, rep % 3 == 0 ? 0 : 1);
         std::string s1 = to_stream_bytes([&](std::ostream &os) { k.exp_s(os, *o); });
         std::string s2 = to_file_bytes([&](FILE *f) { k.exp_f(f, *o); });
+        { static volatile int sink2 = 0; uint64_t h = fnv1a(s1.data(), s1.size()) ^ fnv1a(s2.data(), s2.size()); if (h & 1) sink2 += 1; else sink2 += 2; }
         { std::istringstream is(s1, std::ios::binary); HP im = k.imp_s(is, *o); std::string e = k.cmp(*o, *im); if (!e.empty() && e.rfind("real:", 0) != 0) out.viol("memory:io-roundtrip:" + k.name, J().s("field", e)); }
         { FILE *f = fmemopen((void *) s2.data(), s2.size(), "rb"); HP im = k.imp_f(f, *o); fclose(f); std::string e = k.cmp(*o, *im); if (!e.empty() && e.rfind("real:", 0) != 0) out.viol("memory:io-roundtrip:" + k.name, J().s("field", e)); }
         out.evaluations += 2;
